@@ -297,28 +297,9 @@ def run(chk, replay=None):
                                    {'input': {'case': jcase, 'spoint': fstr(spoint) if spoint is not None else None, 'solver': sm},
                                     'lcapy': {'DM': str(got['V']), sm: str(got2['V'])}, 'spec': 'solution independent of solver_method'},
                                    'solver_method=%s gives a different solution from DM' % sm)
-        # sign conventions (thorough, and every 5th quick case)
-        if (not quick) or idx % 5 == 0:
-            for cv in ('hybrid', 'active'):
-                try:
-                    with common.time_limit(60):
-                        got3 = L.analyse(case, spoint, 'DM', cv)
-                except common.TimeLimit:
-                    chk.count('lcapy-error', 'conv:time-limit')
-                    continue
-                except Exception as e:   # noqa
-                    chk.count('lcapy-error', 'conv:' + type(e).__name__)
-                    continue
-                chk.count('convention', cv)
-                for n, v in got['J'].items():
-                    sg = sign_for(cv, got['is_source'].get(n, False))
-                    w = got3['J'].get(n)
-                    if w is not None and (sg * w[0], sg * w[1]) != v:
-                        n_cex += 1
-                        chk.counterexample({'kind': 'sign-convention', 'convention': cv},
-                                           {'input': {'case': jcase, 'convention': cv}, 'lcapy': '%s: passive %s, %s %s' % (n, v, cv, w),
-                                            'spec': 'reported = sign * passive current'},
-                                           'current sign convention %s not applied as documented for %s' % (cv, n))
+        # (the hybrid/active reporting conventions are outside C01, which is stated under the passive convention: Lcapy
+        #  flips only the currents of components that own an MNA branch current under 'active', never those of R/C/Y; an
+        #  oracle on them would demand more than the property states and was removed)
         L.state.current_sign_convention = 'passive'
 
     idx = 0
